@@ -55,7 +55,9 @@ func nsAlphabet() []fsx.Op {
 		fsx.Op{K: "SETATTR", H: "root/a", Size: 0},
 		fsx.Op{K: "SETATTR", H: "root/a", Size: 100},
 		fsx.Op{K: "SETATTR", H: "root/a", Size: 5000},
-		fsx.Op{K: "SETATTR", H: "root/a", Size: 4500}, // together with 5000: shrink and growth inside one block
+		fsx.Op{K: "SETATTR", H: "root/a", Size: 4500},                            // together with 5000: shrink and growth inside one block
+		fsx.Op{K: "WRITE", H: "root/a", Off: 0, Cnt: 8192, Pat: 0x55, Stable: 2}, // size an exact multiple of the block size
+		fsx.Op{K: "SETATTR", H: "root/a", Size: 8192},
 		fsx.Op{K: "SETATTR", H: "root/a", NoSize: true, Mtime: 12345, Atime: 678},
 		fsx.Op{K: "SETATTR", H: "root/a", NoSize: true, Mtime: 777}, // mtime alone
 		fsx.Op{K: "SETATTR", H: "root/d", NoSize: true, Atime: 888}, // atime alone, on a directory
